@@ -22,10 +22,13 @@ RULES: Dict[str, str] = {
     'R-COMPILE-COPIES': 'sa.rules.effects:run_compile_copies',
     'R-SORT-TOTAL': 'sa.rules.sorttotal:run',
     'R-MANGLE-PROTOCOL': 'sa.rules.imports:run',
+    'R-REPEAT-COUNT': 'sa.rules.repeat:run',
     'R-CONFIG-FORWARD': 'sa.rules.structure:run_config_forward',
     'R-OVERWRITTEN-STORE': 'sa.rules.structure:run_overwritten',
     'R-COPY-COVERS': 'sa.rules.structure:run_copy_covers',
     'R-SPLIT-ARMS': 'sa.rules.structure:run_split_arms',
+    'R-PARAM-FORWARD': 'sa.rules.structure:run_param_forward',
+    'R-CLASS-MUTABLE': 'sa.rules.structure:run_class_mutable',
     'R-SCAN-BUFFER': 'sa.rules.forest:run_scan_buffer',
     'R-IDENTITY-EQ': 'sa.rules.eqhash:run_identity',
     'R-SPLIT-TOTAL': 'sa.rules.indenter:run_split_total',
@@ -52,6 +55,7 @@ RULES: Dict[str, str] = {
     'R-PRIO-SIBLINGS': 'sa.rules.order:run_prio',
     'R-LEX-PRECEDENCE': 'sa.rules.lexprec:run',
     'R-EXC-DISCIPLINE': 'sa.rules.exc:run',
+    'R-ONERROR-SKIP': 'sa.rules.exc:run_on_error',
 }
 
 PROPERTIES: Dict[str, dict] = {}
@@ -85,25 +89,25 @@ def _p(rules, decides, not_decided, technique, extra_assume=()):
 
 
 PROPERTIES.update({
-    'C03': _p(['R-EQHASH', 'R-KEEP-PRED', 'R-PREFIX-PROTOCOL', 'R-AMBIG-INDEX', 'R-NODE-NAME', 'R-SENTINEL-SLOTS', 'R-SHALLOW-FORK', 'R-CONFIG-FORWARD'],
+    'C03': _p(['R-EQHASH', 'R-KEEP-PRED', 'R-PREFIX-PROTOCOL', 'R-AMBIG-INDEX', 'R-NODE-NAME', 'R-SENTINEL-SLOTS', 'R-SHALLOW-FORK', 'R-CONFIG-FORWARD', 'R-PARAM-FORWARD', 'R-PRIO-SIBLINGS', 'R-REPEAT-COUNT'],
               'the predicates deciding whether a symbol stays in the tree agree (truth tables); generated helper names carry the prefix '
               'their consumers strip and users cannot define; wrapper-chain order matches the index computations; node names are '
               'computed identically by all engines; eq/hash contract of the CNF classes (CYK sets); child slots of the forest-to-tree '
               'conversion are tested only by identity with their sentinel (None / falsy children are kept).',
               'that shaping equals the documented function of the derivation for all grammars; agreement of engine results in general.',
               'AST sibling-agreement rules: truth-table comparison of extracted predicates, prefix protocol, eq/hash field sets'),
-    'C04': _p(['R-NODECACHE', 'R-EQHASH', 'R-AMBIG-INDEX', 'R-SCAN-BUFFER', 'R-SENTINEL-SLOTS'],
+    'C04': _p(['R-NODECACHE', 'R-EQHASH', 'R-AMBIG-INDEX', 'R-SCAN-BUFFER', 'R-SENTINEL-SLOTS', 'R-PARAM-FORWARD'],
               'SPPF symbol nodes are unique per (symbol, start, end) label and every family is attached to the node of its own label; '
               'packed/token nodes hash consistently with equality; ambiguity-expander indices refer to the unfiltered expansion.',
               'completeness or soundness of the forest and of its expansion to trees.',
               'AST idiom/def-use rule over every SymbolNode creation site; eq/hash field sets'),
-    'C05': _p(['R-ORDER-DET', 'R-PRIO-SIBLINGS', 'R-EQHASH', 'R-SORT-TOTAL'],
+    'C05': _p(['R-ORDER-DET', 'R-PRIO-SIBLINGS', 'R-EQHASH', 'R-SORT-TOTAL', 'R-PARAM-FORWARD', 'R-NODECACHE'],
               'no order-sensitive consumer on the Earley path iterates a hash-ordered collection, the ordered-set switch is wired end to '
               'end, no id()/hash()/random in ordering; priority modes rewrite rules and terminals alike, max-aggregation matches the '
               'child order, both child slots contribute, the sort key is the documented one.',
               'optimality of the total priority over all derivations.',
               'typed iteration-site audit with consumer effect classification; sibling-branch agreement'),
-    'C06': _p(['R-NEWLINE-PRED', 'R-POS-AFFINITY', 'R-META-TRIPLES', 'R-REPR-PARAM'],
+    'C06': _p(['R-NEWLINE-PRED', 'R-POS-AFFINITY', 'R-META-TRIPLES', 'R-REPR-PARAM', 'R-PARAM-FORWARD', 'R-AMBIG-INDEX'],
               'every token that can contain LF has its newlines counted (the opt-out predicate is conservative); coordinates keep their '
               'family at every constructor/assignment, start is read before and end after the advance; LineCounter mutators re-establish '
               'column = char_pos - line_start_pos + 1, line += count, line_start_pos = last newline + 1 (linear normal forms); the dynamic '
@@ -111,43 +115,43 @@ PROPERTIES.update({
               'character is chosen per representation.',
               'text[start:end] == token (regex semantics); nesting of spans for all grammars.',
               'argument-binding family check, CFG must-precede, linear-normal-form dataflow, predicate exhaustiveness table'),
-    'C07': _p(['R-LEX-PRECEDENCE', 'R-SERIAL-NORM', 'R-SORT-TOTAL', 'R-OVERWRITTEN-STORE'],
+    'C07': _p(['R-LEX-PRECEDENCE', 'R-SERIAL-NORM', 'R-SORT-TOTAL', 'R-OVERWRITTEN-STORE', 'R-PARAM-FORWARD'],
               'the sort key is the documented precedence and the sorted list reaches the regex alternation unchanged (slice bounds of the '
               'chunking agree), for the basic lexer and every per-state lexer; the keyword exception is guarded by equal priority, a full '
               'match and a flag-subset test whose operands are sets on every construction path.',
               'tiling/coverage for all inputs; "contextual succeeds whenever basic does".',
               'sort-key normalisation against the documented order; def-use of the ordered list; guard extraction'),
-    'C08': _p(['R-EXC-DISCIPLINE', 'R-POS-AFFINITY', 'R-TOKEN-NONE-TEST', 'R-SPLIT-TOTAL', 'R-ACCEPTS-PURE', 'R-SORT-TOTAL', 'R-IDENTITY-EQ', 'R-INDENT-PAIRING'],
+    'C08': _p(['R-EXC-DISCIPLINE', 'R-POS-AFFINITY', 'R-TOKEN-NONE-TEST', 'R-SPLIT-TOTAL', 'R-ACCEPTS-PURE', 'R-SORT-TOTAL', 'R-IDENTITY-EQ', 'R-INDENT-PAIRING', 'R-PARAM-FORWARD', 'R-ONERROR-SKIP', 'R-CLASS-MUTABLE', 'R-TERM-NAME-PROTOCOL'],
               'every raise reachable from parse() is an UnexpectedInput or a tabled configuration/internal/documented class; no broad handler '
               'swallows; EOFError of next_token is caught by every caller; the offending token / current position is what the error carries; '
               '$END borrows the last token whenever there is one (identity test, not truthiness); no partial split index on the input path.',
               'earliest position; exactness of expected/allowed/accepts; implicit exceptions.',
               'call-graph reachability + raise-site classification table; Engler-style inconsistent-null-test rule'),
-    'C10': _p(['R-SHARED-EFFECTS', 'R-PERCALL-ESCAPE', 'R-COMPILE-COPIES', 'R-POSTLEX-RESET'],
+    'C10': _p(['R-SHARED-EFFECTS', 'R-PERCALL-ESCAPE', 'R-COMPILE-COPIES', 'R-POSTLEX-RESET', 'R-PARAM-FORWARD', 'R-CLASS-MUTABLE'],
               'the complete list of writes reachable from parse/lex/scan/parse_interactive and the interactive API, each classified by an '
               'ownership dataflow as per-call or shared; a shared write is accepted only as an atomic idempotent lazy publication; post-lexer '
               'state is reset (to its initial values) per stream.',
               'races inside user callbacks; interleaved consumption of two lex() generators sharing one Indenter.',
               'effect analysis over the typed call graph with an ownership (fresh/per-call/shared) dataflow'),
-    'C11': _p(['R-SERIAL-AGREE', 'R-SERIAL-NORM', 'R-SERIAL-NS', 'R-LOAD-REAPPLY', 'R-LOAD-PURE', 'R-STANDALONE-CLOSURE'],
+    'C11': _p(['R-SERIAL-AGREE', 'R-SERIAL-NORM', 'R-SERIAL-NS', 'R-LOAD-REAPPLY', 'R-LOAD-PURE', 'R-STANDALONE-CLOSURE', 'R-PARAM-FORWARD', 'R-CLASS-MUTABLE', 'R-CACHE'],
               'a restored object has every attribute its post-load API reads, with the representation its constructor would have given it; '
               'the parse-table codec agrees on keys and tags; option-derived non-serialised state is re-derived at load; the generated '
               'stand-alone module is closed under name resolution for its supported API.',
               'value-level equality of tables after encode/decode for all grammars.',
               'constructor/deserialiser sibling agreement over attribute sets; static reconstruction of the generated module + name closure'),
-    'C12': _p(['R-CACHE'],
+    'C12': _p(['R-CACHE', 'R-LOAD-REAPPLY'],
               'what determines the key and that it is combined injectively; every option outside the key cannot shape the cached object or is '
               'covered; the file reaches _load only through header and used-files guards; any failure while reading falls back with the '
               'instance restored; the fall-back rewrites the file in the reader\'s record order.',
               'value-level equality of the loaded parser (C11); atomicity of the write beyond what the read-side fallback makes harmless.',
               'def-use/taint inside Lark.__init__, CFG dominance and must-pass-through, writer/reader agreement'),
-    'C13': _p(['R-FORK-ALIAS', 'R-SHALLOW-FORK', 'R-TERM-NAME-PROTOCOL', 'R-ACCEPTS-PURE', 'R-COPY-COVERS'],
+    'C13': _p(['R-FORK-ALIAS', 'R-SHALLOW-FORK', 'R-TERM-NAME-PROTOCOL', 'R-ACCEPTS-PURE', 'R-COPY-COVERS', 'R-ONERROR-SKIP', 'R-PARAM-FORWARD', 'R-CLASS-MUTABLE'],
               'copies made by the fork API share no state that feeding or lexing writes and are coherent (one copied lexer thread in both '
               'places); shallow forks are only fed with tree-building callbacks off; the terminal/non-terminal classification used by '
               'accepts() and the expected set recognises every name the loader can produce.',
               '"resume equals parse" as a value-level statement; stateful user post-lexers shared by forks.',
               'copy audit (argument freshness / mutability via the written-class set), CFG dominance, string-shape producer/consumer check'),
-    'C14': _p(['R-SCAN-PROGRESS', 'R-SHALLOW-FORK', 'R-LEX-PRECEDENCE', 'R-POS-AFFINITY', 'R-WINDOW-BOUNDS'],
+    'C14': _p(['R-SCAN-PROGRESS', 'R-SHALLOW-FORK', 'R-LEX-PRECEDENCE', 'R-POS-AFFINITY', 'R-WINDOW-BOUNDS', 'R-PARAM-FORWARD'],
               'the search position strictly increases per iteration (end of match / candidate + 1), ranges come from the matched tokens, the '
               'replay parser is fresh per match and fed exactly the accepted prefix then feed_eof(last), the exploratory parse runs without '
               'callbacks, candidates are searched among non-ignored terminals, the exploratory window carries the full text\'s line state.',
@@ -159,12 +163,12 @@ PROPERTIES.update({
               'side (look-behind, ^, \\b see the buffer before the window).',
               'value-level equality of trees across representations.',
               'carrier-based constant-use audit; call-argument shape check with a semantics table for re\'s pos/endpos'),
-    'C16': _p(['R-XFORM-PARITY', 'R-NODE-NAME', 'R-STANDALONE-CLOSURE', 'R-AMBIG-INDEX'],
+    'C16': _p(['R-XFORM-PARITY', 'R-NODE-NAME', 'R-STANDALONE-CLOSURE', 'R-AMBIG-INDEX', 'R-PARAM-FORWARD', 'R-META-TRIPLES'],
               'the four traversals and the embedded path implement the same dispatch, token guard (__visit_tokens__) and Discard filtering, '
               'children before parents; nodes are named identically at every site; the transformer classes work inside the generated module.',
               'equality of results for all grammars/transformers; once-per-node counting on DAGs.',
               'sibling feature extraction and comparison'),
-    'C18': _p(['R-INDENT-PAIRING', 'R-INDENT-GRAMMAR', 'R-POSTLEX-RESET', 'R-SPLIT-TOTAL', 'R-TOKEN-NONE-TEST'],
+    'C18': _p(['R-INDENT-PAIRING', 'R-INDENT-GRAMMAR', 'R-POSTLEX-RESET', 'R-SPLIT-TOTAL', 'R-TOKEN-NONE-TEST', 'R-PARAM-FORWARD', 'R-CLASS-MUTABLE'],
               'one INDENT per push (guarded by width > top), one DEDENT per pop, drain to depth 1 at end of stream, nothing inside brackets, '
               'DedentError on a dedent to a closed column, width = spaces + tabs*tab_len after the last newline, state reset per stream, no '
               'partial string operation on the newline token, end-of-stream DEDENTs borrow the last token by identity test.',
@@ -178,7 +182,7 @@ PROPERTIES.update({
 })
 
 PROPERTIES.update({
-    'C17': _p(['R-MANGLE-PROTOCOL', 'R-CONFIG-FORWARD', 'R-PREFIX-PROTOCOL'],
+    'C17': _p(['R-MANGLE-PROTOCOL', 'R-CONFIG-FORWARD', 'R-PREFIX-PROTOCOL', 'R-PARAM-FORWARD'],
               'the protocol every imported definition goes through: the mangled spelling keeps a leading underscore in front and prefixes the '
               'rest, aliases replace instead of prefix, an enclosing import\'s mangle is applied on top; a definition\'s name, each template '
               'parameter and every Symbol of (a copy of) its tree are mangled; renaming keeps a symbol\'s class and filter_out; every defining '
@@ -191,14 +195,31 @@ PROPERTIES.update({
               'producer/consumer protocol rules over the loader: format-string shape, path conditions, argument binding'),
 })
 
+PROPERTIES.update({
+    'C09': _p(['R-REPEAT-COUNT', 'R-PREFIX-PROTOCOL', 'R-IDENTITY-EQ'],
+              'the COUNT ALGEBRA of the repetition compiler, by abstract interpretation of the tree-building code (counts as integer '
+              'intervals with polynomial end points, identities decided by normal form): _add_repeat_rule(a, b, target=T) builds a rule '
+              'matching exactly a*T + b; _add_repeat_opt_rule builds one matching 0 .. a*T + b - 1 given an optional part matching 0 .. T - 1; '
+              'the alternatives of every helper tile an interval (no gap, no overlap); small_factors(n) returns factors whose fold '
+              'x -> x*a + b from 1 is n (induction over its returns; divisor >= 2); _generate_repeats(rule, mn, mx) returns a tree matching '
+              'exactly mn .. mx on every path (naive arm, exact arm, factored arm with the loop invariant opt = 0 .. target - 1); '
+              '`t: x | t x` matches 1 or more; EBNF_to_BNF.expr maps ? -> 0..1, + -> 1.., * -> 0.., ~n -> n, ~n..m -> n..m with the bounds '
+              'in the right places and rejects only invalid bounds; cache keys name everything the helper tree depends on and the two '
+              'helpers\' keys cannot coincide; _add_rule files the tree under the name it returns with the rule\'s options; inside terminals '
+              'the inner regexp is grouped and followed by the operator, {n} or {n,m}; helper rule names are inlined ("__" prefix); trees are not '
+              'compared by identity (`[x] * n` repeats one object).',
+              'that the parsing engines match what the compiled rules denote (C01/C02); semantics of regex quantifiers (trusted: re); '
+              'terminals that can match the empty string; order of children beyond the helper names being inlined.',
+              'abstract interpretation over a count domain (intervals with polynomial bounds), path enumeration of the compiler functions, '
+              'loop summaries by fold / invariant, polynomial normal forms'),
+})
+
 
 NOT_APPLICABLE = {
     'C01': 'membership in L(G) for all grammars x inputs is functional correctness of a chart algorithm; no ownership, ordering, pairing or '
            'agreement fact in the source is a necessary condition specific to it (R-EQHASH/R-NODECACHE cover Earley data structures under C04/C20).',
     'C02': 'correctness of the DeRemer-Pennello relations and of the automaton is algorithmic and per grammar; a rule pinning one comparison '
            'operator of the tie-break would be a frozen fragment, not a decision of the property.',
-    'C09': 'exact repetition counts for all 0 <= n <= m are arithmetic facts about small_factors and the (a, b) helper rules: a job for '
-           'arithmetic reasoning (solver/proof families), not for program shape; its "no helper nodes visible" clause is decided under C03.',
     'C19': 'a value-level round trip over all trees of a grammar class; the tree-matching grammar is a second compilation whose agreement with '
            'the first is semantic; the predicate the two share (is_discarded_terminal) is checked under C03.',
 }
